@@ -158,6 +158,7 @@ def r2(ctx, fs):
     ctx.rule(rid3, 'first write wins: the save is non-overwriting (insert / emplace / try_emplace) or guarded by !count(k)', floor=9)
     for fname, params, loc_field, layers_field, mapname in SETTERS:
         f = fs.fn(fname, params=params) if params else fs.fn(fname)
+        _CUR_FN[0] = f
         env = LocalEnv(f, fs)
         loc_short = loc_field.rsplit('::', 1)[-1]
         n_stores = 0
@@ -257,10 +258,14 @@ def r2(ctx, fs):
             raise AnalysisBroken('%s: no store to %s found' % (f.id, loc_field))
 
 
+_CUR_FN = [None]
+
+
 def _stores_in(s):
     class _F:
         def __init__(self, s):
             self.s = s
+            self.fn = _CUR_FN[0]        # lets effects resolve reference locals (`auto &top = layers.back();`) to what they name
 
         def nodes(self):
             return walk(self.s)
@@ -457,9 +462,15 @@ def r5(ctx, fs):
     # sat_core::pop pops assignments down to the level mark: loop `while (trail_lim.back() < trail.size()) pop_one()`
     f = fs.fn('smt::sat_core::pop')
     ok = False
+    envp = LocalEnv(f)
     for n in f.nodes():
         if n.get('k') == 'WhileStmt':
-            c = canon(n['slots']['cond'], None)
+            c = canon(n['slots']['cond'], envp, subst=False)
+            # the level mark may have been read into a local before the loop (a snapshot of trail_lim.back() taken while it is still the top)
+            if isinstance(c, tuple) and len(c) == 3 and isinstance(c[1], str):
+                for d in envp.decls.values():
+                    if d.get('name') == c[1] and isinstance(d.get('init'), dict):
+                        c = (c[0], canon(d['init'], envp, subst=False), c[2])
             body_calls = [m for m in walk(n['slots']['body']) if m.get('callee_name') == 'smt::sat_core::pop_one']
             if body_calls and c == ('<', ('mcall', 'std::vector<unsigned long>::back', 'smt::sat_core::trail_lim'), ('mcall', 'std::vector<smt::lit>::size', 'smt::sat_core::trail')):
                 ok = True
